@@ -183,7 +183,44 @@ func (b *verBroker) transport() *kafka.Transport {
 
 // ------------------------------------------------------------------ produce at every version
 
-func runWV(version int16, viaWriter bool, codec int, recs []inRec) (args string, res string) {
+// ackSummary: what the caller was told and what the broker saw, for C01's clause "an applied
+// and acknowledged batch is reported as success, sent once, each message once in the log".
+func ackSummary(callErr error, frames [][]byte, recs []inRec) string {
+	res := "nil"
+	if callErr != nil {
+		res = "err"
+	}
+	count := map[string]int{}
+	for _, f := range frames {
+		set, why := cutRecordSet(f)
+		if why != "" {
+			continue
+		}
+		got, err := decodeSet(set, decOpts{})
+		if err != nil {
+			continue
+		}
+		for _, g := range got {
+			count[string(g.key)+"\x00"+string(g.val)+fmt.Sprint(g.key == nil, g.val == nil)]++
+		}
+	}
+	want := map[string]int{}
+	for _, rc := range recs {
+		want[string(rc.key)+"\x00"+string(rc.val)+fmt.Sprint(rc.key == nil, rc.val == nil)]++
+	}
+	log := "once"
+	for k, n := range want {
+		switch c := count[k]; {
+		case c < n:
+			log = "missing"
+		case c > n && log == "once":
+			log = fmt.Sprintf("dup:%d", c/n)
+		}
+	}
+	return fmt.Sprintf("res=%s reqs=%d log=%s", res, len(frames), log)
+}
+
+func runWV(version int16, viaWriter bool, codec int, recs []inRec) (args string, res string, ack string) {
 	var oracle []oracleEntry
 	now := int64(0)
 	defer func() {
@@ -202,7 +239,8 @@ func runWV(version int16, viaWriter bool, codec int, recs []inRec) (args string,
 		w := &kafka.Writer{Addr: kafka.TCP("fake:9092"), Topic: "t",
 			Balancer:  kafka.BalancerFunc(func(kafka.Message, ...int) int { return 0 }),
 			BatchSize: len(recs), BatchBytes: 64 << 20, BatchTimeout: 5 * time.Second,
-			RequiredAcks: kafka.RequireAll, Transport: tr}
+			RequiredAcks: kafka.RequireAll, Transport: tr,
+			MaxAttempts: 3, WriteBackoffMin: time.Millisecond, WriteBackoffMax: 5 * time.Millisecond}
 		if codec != 0 {
 			w.Compression = kafka.Compression(codec)
 		}
@@ -217,21 +255,22 @@ func runWV(version int16, viaWriter bool, codec int, recs []inRec) (args string,
 			err = pres.Error
 		}
 	}
-	if err != nil {
-		return "", "ERR other"
-	}
 	b.mu.Lock()
 	frames := b.produced
 	b.mu.Unlock()
+	ack = ackSummary(err, frames, recs)
+	if err != nil {
+		return "", "ERR other", ack
+	}
 	if len(frames) != 1 {
-		return "", fmt.Sprintf("ERR frames=%d", len(frames))
+		return "", fmt.Sprintf("ERR frames=%d", len(frames)), ack
 	}
 	if got := int16(binary.BigEndian.Uint16(frames[0][6:])); got != version {
-		return "", fmt.Sprintf("ERR negotiated=%d", got)
+		return "", fmt.Sprintf("ERR negotiated=%d", got), ack
 	}
 	set, why := cutRecordSet(frames[0])
 	if why != "" {
-		return "", "ERR cut:" + why
+		return "", "ERR cut:" + why, ack
 	}
 	ver := 2
 	if version < 3 {
@@ -241,7 +280,7 @@ func runWV(version int16, viaWriter bool, codec int, recs []inRec) (args string,
 		now = int64(binary.BigEndian.Uint64(set[22:30]))
 	}
 	oracle = outputOracle(ver, codec, set)
-	return "", okResult(set)
+	return "", okResult(set), ack
 }
 
 func toKafkaRecords(recs []inRec) []kafka.Record {
@@ -254,7 +293,7 @@ func toKafkaRecords(recs []inRec) []kafka.Record {
 }
 
 func produceVersionCases(r *rand.Rand, level int) {
-	if level <= 0 || (only != "" && only != "wv") {
+	if level <= 0 || (only != "" && only != "wv" && only != "wa") {
 		return
 	}
 	i := 0
@@ -285,12 +324,19 @@ func produceVersionCases(r *rand.Rand, level int) {
 				for _, rc := range recs {
 					contentFeats(feat, rc.key, rc.val, rc.hdrs)
 				}
-				args, res := runWV(v, viaWriter, codec, recs)
+				args, res, ack := runWV(v, viaWriter, codec, recs)
 				ver := 2
 				if v < 3 {
 					ver = 1
 				}
-				emit("wv", args, res, writerFeats(ver, codec, feat))
+				fs := writerFeats(ver, codec, feat)
+				emit("wv", args, res, fs)
+				path := "c"
+				if viaWriter {
+					path = "w"
+				}
+				// wa: what the caller was told / how often the broker was asked / the broker's log
+				emit("wa", fmt.Sprintf("%x %s %x", v, path, len(recs)), ack, fs)
 			}
 		}
 	}
